@@ -373,7 +373,8 @@ def mkoption(item: Optional[Obj], item_t: TCls) -> Obj:
 
 
 def run_typed(repo: Repo, cls_qual: str, stack_items: List[Any], args: Optional[List[Any]] = None, max_paths: int = 400,
-              max_depth: int = 30, context: Any = None, extra: Optional[Dict[str, Any]] = None, opaque_types: bool = False) -> List[PathResult]:
+              max_depth: int = 30, context: Any = None, extra: Optional[Dict[str, Any]] = None, opaque_types: bool = False,
+              loop_unroll: int = 3) -> List[PathResult]:
     fi = repo.find_method(cls_qual, 'execute')
     if fi is None:
         raise AnalysisError(f'{cls_qual} has no execute')
@@ -381,7 +382,7 @@ def run_typed(repo: Repo, cls_qual: str, stack_items: List[Any], args: Optional[
     it = Interp(repo, hooks, max_depth=max_depth, max_paths=max_paths)
     it.max_recursion = 12
     it.while_bound = 4
-    it.loop_unroll = 3
+    it.loop_unroll = loop_unroll
 
     def go(i):
         st = mk_stack(stack_items)
